@@ -3,14 +3,17 @@ package main
 import (
 	"encoding/json"
 	"math/rand"
+	"time"
 
 	"gopkg.in/typ.v4/sync2"
 )
 
 // C04: sync2.Map[int,int] under the controlled scheduler.
 // Plan lines: {"setup":[calls], "progs":[[calls],...], "mode":"dfs"|"random"|"schedule",
-//              "n":max executions, "seed":.., "schedule":[choices], "fine":how many executions get a fine trace,
-//              "keys":[..]}   call = {"op","k","v"}
+//
+//	"n":max executions, "seed":.., "schedule":[choices], "fine":how many executions get a fine trace,
+//	"keys":[..]}   call = {"op","k","v"}
+//
 // Output: for every execution a line {"ev":"reset",...}, then its events; fine events carry the
 // projection of the map's internal state (taken while all threads are parked).
 func init() { comps["syncmap"] = driveSyncMap }
@@ -50,9 +53,10 @@ func calls(m *sync2.Map[int, int], v any) []Call {
 
 // world is one fresh object under test plus the ways to call, project and read it back.
 type world struct {
-	calls func(v any) []Call
-	snap  func(s *Sched, e M) M // add the projected internal state (fine traces); may be nil
-	final func() []M            // sequential read-back after quiescence, as "final" events
+	calls          func(v any) []Call
+	snap           func(s *Sched, e M) M // add the projected internal state (fine traces); may be nil
+	final          func() []M            // sequential read-back after quiescence, as "final" events
+	stepTO, freeTO time.Duration         // watchdog overrides (0: defaults)
 }
 
 func driveSyncMap(plan []M, out *Out, _ []string) {
@@ -82,9 +86,12 @@ func driveSyncMap(plan []M, out *Out, _ []string) {
 
 func driveWorld(plan []M, out *Out, mk func(p M) *world) {
 	seen := map[string]bool{} // identical histories are reported once (a projection, not a judgement)
-	total, dup := 0, 0
+	total, dup, deadlocks := 0, 0, 0
 	defer func() { out.Emit(M{"ev": "summary", "executions": total, "duplicate_histories": dup}) }()
+	stuckN := 0
 	for pi, p := range plan {
+		stuckP := stuckN
+		out.Journal(M{"ev": "begin", "plan": pi})
 		mode, maxN, fine := str(p, "mode"), num(p, "n"), num(p, "fine")
 		rng := rand.New(rand.NewSource(int64(num(p, "seed"))))
 		var prefix []int
@@ -94,12 +101,21 @@ func driveWorld(plan []M, out *Out, mk func(p M) *world) {
 		for ex := 0; maxN == 0 || ex < maxN; ex++ {
 			w := mk(p)
 			s := NewSched()
+			if w.stepTO > 0 {
+				s.StepTO, s.FreeTO = w.stepTO, w.freeTO
+			}
 			emitFine := ex < fine && w.snap != nil
 			var evs []M
 			free := false
 			emit := func(e M) {
+				if out.full {
+					out.Journal(merge(M{"plan": pi, "ex": ex}, e))
+				}
 				if e["ev"] == "freemode" {
 					free = true
+				}
+				if e["ev"] == "stuck" {
+					stuckN++
 				}
 				if !free && emitFine {
 					e = w.snap(s, e)
@@ -162,6 +178,8 @@ func driveWorld(plan []M, out *Out, mk func(p M) *world) {
 					h = append(h, M{"ev": "ret", "t": 9, "rv": e["rv"], "rok": e["rok"], "rep": rp})
 				case e["ev"] == "deadlock":
 					h = append(h, M{"ev": "deadlock"})
+				case e["ev"] == "stuck":
+					h = append(h, M{"ev": "stuck", "t": e["t"], "site": e["site"]})
 				}
 			}
 			total++
@@ -179,6 +197,17 @@ func driveWorld(plan []M, out *Out, mk func(p M) *world) {
 						out.Emit(e)
 					}
 				}
+			}
+			if info.Deadlock {
+				deadlocks++
+			}
+			if stuckN-stuckP >= 2 {
+				break // this program keeps hitting the watchdog: move on to the next one
+			}
+			if deadlocks >= 3 || stuckN >= 40 {
+				// every further schedule would cost seconds of watchdog time; what was recorded is enough for a verdict
+				out.Emit(M{"ev": "aborted", "deadlocks": deadlocks, "stuck": stuckN})
+				return
 			}
 			if mode == "dfs" {
 				prefix = dfsNext(&info)
